@@ -7,14 +7,26 @@ ids = [p['id'] for p in props]
 
 # id -> (level category, level text, level note, technique, design ref)
 checks = {
+ 'C01': ('exploration',
+   'Two runtime monitors. (1) Sequential shadow ledger (GOMAXPROCS=1, LIFO pools): after every op of generated Entry/TraceError/Exit/late-call histories over five differently guarded resources the node and inbound statistics (5 window sums + gauge), the recording StatSlot callbacks (exactly-once, own err/rt/resource) and the state of every live entry (owner, Err, Args, BatchCount, Resource) are compared with the ledger, including requests whose prepare / rule-check slot or hot-param check panics. (2) 16 real goroutines under the Go race detector with a frozen virtual clock; at each barrier gauges must be zero and window sums equal the client tallies.',
+   'Trusts the ledger, ref.Win and the virtual clock; histories sampled; panics inside user stat slots / exit handlers are outside the domain; concurrent exactness relies on pre-touched buckets (rollover overlap is C09).',
+   'runtime shadow-ledger monitor + race-detector stress with barrier conservation checks', 'DESIGN.md §3 C01'),
  'C02': ('exploration',
    'Two runtime monitors. (1) Lock-step reference model: every api.Entry decision, block type, triggered rule and triggered value on generated arrival histories (virtual clock; default / reused / standalone windows under four global geometries; 1-3 rules; associated rules; batches 0..11; boundary and idle-gap deltas) is compared with an aligned-window model. (2) Cooperative scheduler: 2-4 real goroutines interleaved at the two admission-path yield points (monitor slots before the rule checks and between rule-check and statistic phase); each decision must be consistent with [recorded, recorded+in-path] at the instant of its check and the window excess is bounded by (k_inside-1)*max batch; random walk, PCT and bounded-DFS schedules.',
    'Trusts ref.Win, the virtual clock and the coop scheduler; window geometry of a rule is taken from the documented reuse rule; interleavings are at slot granularity, sampled (DFS exhaustive only for <=3 pre-emptions of 2 workers).',
    'runtime reference-model monitor + cooperative-scheduler interleaving monitor on the real slot chain', 'DESIGN.md §3 C02'),
+ 'C03': ('exploration',
+   'Lock-step differential against a three-state reference breaker (ref.CB, one per rule): every api.Entry decision, block type, triggered rule and the cumulative StateChangeListener log are compared after every event of generated time-stamped histories (overlapping requests, stragglers, errors, slow calls, hostile clock deltas) for all three strategies, thresholds incl. 0/1, min-request 0-8, retry 1-5000 ms, 0/1/dividing/non-dividing bucket counts, probe number 0-3 and 1-3 breakers per resource (half-open roll-back when a later breaker rejects).',
+   'Trusts the 150-line reference breaker and the virtual clock; sequential (concurrency is C12); ratios within (1e-9,1e-7) of the threshold are counted as dont-care.',
+   'runtime reference-model monitor (lock-step differential vs three-state machine) under a virtual clock', 'DESIGN.md §3 C03'),
  'C04': ('exploration',
    'Two runtime monitors. (1) 64-bit semaphore reference model stepped in lock-step with api.Entry/Exit histories over several resources (1-3 rules, random exit order, batches over the full uint32 range): decision, triggered rule/value, gauge after every exit/rejection. (2) Cooperative scheduler as for C02: decision consistent with [in-flight, in-flight+in-path], peak in-flight <= N + k_inside - 1.',
    'Trusts the semaphore model and the coop scheduler; interleavings at slot granularity, sampled (bounded DFS for 2 workers).',
    'runtime reference-model monitor + cooperative-scheduler interleaving monitor on the real slot chain', 'DESIGN.md §3 C04'),
+ 'C16': ('exploration',
+   'Trace monitor on generated chains of recording slots (order values with forced ties, 0-6 or 13-42 slots per kind, behaviours pass/nil/wait/block-fresh/block-by-mutating-context-result/panic, exit handlers error/panic): the complete call log of each Entry/Exit/re-Exit is compared with the sequence implied by the chain description (ascending order, stable ties, first block wins, statistic callbacks exactly once, fail-open), and every returned *BlockError is re-read after 1/10/100/1000 further entries that recycle pooled objects.',
+   'Trusts the chain description as oracle; sequential, GOMAXPROCS=1 so that sync.Pool is a LIFO.',
+   'runtime trace monitor (recorded call log vs expected sequence) on generated slot chains', 'DESIGN.md §3 C16'),
  'C08': ('exploration',
    'Reference-model monitor: every getter of BucketLeapArray / SlidingWindowMetric / BaseStatNode is compared with a naive aligned-bucket multiset model after every step of generated monotone virtual-time histories (hostile deltas: exact bucket/cycle boundaries, idle gaps beyond the array, near-zero times) over sampled valid geometries, plus an exhaustive constructibility grid. Held on the histories executed, nothing more.',
    'Trusts the 150-line reference model ref.Win and the virtual clock; sequential only (concurrency is C09); geometries and histories are sampled, the grid (13x16)^2 is exhaustive.',
